@@ -207,6 +207,11 @@ func c19Check(w *mc.W, cs *c19Case) {
 	rd := &rec.Dest{Next: real, NoPal: true}
 	var g generate.Generator
 	g.SetDestination(rd)
+	if cs.CSel%2 == 1 {
+		// a path-data transform is configured on the same Generator: the gradient geometry is
+		// given in viewBox coordinates all the same
+		g.SetTransform(generate.Scale(2, 0.5), generate.Translate(3, -4))
+	}
 	g.Reset(c19VB, ivg.DefaultPalette)
 	if cs.Dest == 1 {
 		e.HighResolutionCoordinates = true
@@ -370,6 +375,16 @@ func c19Check(w *mc.W, cs *c19Case) {
 	for i := 0; i < 6; i++ {
 		M[i] = float64(vm.NReg[(nbase-6+uint8(i))&63])
 	}
+	if cs.Kind == 0 {
+		// the general form stores the matrix it is given, all six entries, whatever the shape
+		for i := 0; i < 6; i++ {
+			got := vm.NReg[(nbase-6+uint8(i))&63]
+			if (cs.Dest == 0 && f32b(got) != f32b(p[i]) && !(got == 0 && p[i] == 0)) || (cs.Dest == 1 && cmpNReg(p[i], got) != "") {
+				fail("general-form:matrix-register", fmt.Sprintf("matrix entry %d given as %g, NREG[NBASE-%d] holds %g", i, p[i], 6-i, got))
+				return
+			}
+		}
+	}
 	// geometry of the stored matrix and of the paint
 	judge := func(where string, m [6]float64, toVB func(x, y float64) (float64, float64)) bool {
 		apply := func(x, y float64) (gx, gy, mag float64) {
@@ -522,16 +537,29 @@ func c19Check(w *mc.W, cs *c19Case) {
 	// once more, without a Reset, after its contents changed. Each time the registers the
 	// gradient value names must hold the stops as they are at the call.
 	if cs.NStops >= 1 && cs.CSel%8 == 5 {
-		for round := 2; round <= 3; round++ {
+		for round := 2; round <= 4; round++ {
 			n1 := len(rd.Calls)
-			if round == 2 {
+			switch round {
+			case 2:
 				g.Reset(c19VB, ivg.DefaultPalette)
 				g.SetCSel(uint8(cs.CSel))
 				g.SetNSel(uint8(cs.NSel))
-			} else {
+			case 3:
 				for i := range stops {
 					stops[i].Color = c19Color((cs.Model+1)%4, i+3, len(stops))
 				}
+			default:
+				// the caller overwrote the six matrix registers and a stop in between (through the
+				// Generator's own Destination methods), then asks for the same gradient again
+				g.SetNSel(4)
+				for i := 0; i < 7; i++ {
+					g.SetNReg(0, true, 100+float32(i))
+				}
+				g.SetCSel(10)
+				g.SetCReg(0, false, rgba(9, 9, 9, 9))
+				g.SetCSel(uint8(cs.CSel))
+				g.SetNSel(uint8(cs.NSel))
+				n1 = len(rd.Calls)
 			}
 			if rerr := call(stops); rerr != nil {
 				fail("repeat:spurious-error", fmt.Sprintf("call %d with the same stops slice returned %v", round, rerr))
@@ -540,7 +568,7 @@ func c19Check(w *mc.W, cs *c19Case) {
 			var vm2 ref.VM
 			vm2.Reset(ivg.DefaultPalette)
 			from := n1
-			if round == 3 {
+			if round >= 3 {
 				from = 0
 				for i := n1 - 1; i >= 0; i-- {
 					if rd.Calls[i].M == rec.MReset {
@@ -553,7 +581,7 @@ func c19Check(w *mc.W, cs *c19Case) {
 			vm = vm2
 			mirror(rd.Calls[from:])
 			vm2, vm = vm, keep
-			k2, gv2 := rec.ColorParts(rd.Calls[n1+map[int]int{2: 3, 3: 0}[round]].C)
+			k2, gv2 := rec.ColorParts(rd.Calls[n1+map[int]int{2: 3, 3: 0, 4: 0}[round]].C)
 			if k2 != rec.KRGBA || !ref.IsGradient(gv2) || vm2.CReg[cs.CSel] != gv2 || int(vm2.CSel) != cs.CSel || int(vm2.NSel) != cs.NSel {
 				fail("repeat:gradient-register", fmt.Sprintf("call %d: CREG[CSEL] holds %v, selectors %d/%d; calls: %s", round, vm2.CReg[cs.CSel], vm2.CSel, vm2.NSel, rec.CallsString(rd.Calls[n1:])))
 				return
@@ -571,7 +599,7 @@ func c19Check(w *mc.W, cs *c19Case) {
 				}
 			}
 			for i := 1; i <= 6; i++ {
-				if a, b := vm2.NReg[(nb-uint8(i))&63], float32(M[6-i]); cs.Dest == 0 && f32b(a) != f32b(b) {
+				if a, b := vm2.NReg[(nb-uint8(i))&63], float32(M[6-i]); cs.Dest == 0 && f32b(a) != f32b(b) && !(a == 0 && b == 0) {
 					fail("repeat:matrix-register", fmt.Sprintf("call %d: matrix register NREG[NBASE-%d] holds %g, the first call stored %g", round, i, a, b))
 					return
 				}
